@@ -49,6 +49,7 @@ structure S where
   nWrites : Nat := 0
   failNext : Bool := false               -- the harness announced that the next transport write fails
   closeSleeps : Nat := 0                 -- polls of the winning Close (grace period accounting)
+  conn : Option Bytes := none            -- buffered scenarios: what the connection under the library's buffered transport received
   deriving Inhabited
 
 def getThr (s : S) (n : String) : Thr := (s.thr.find? (·.name == n)).getD { name := n }
@@ -219,6 +220,8 @@ def senderStep (s : S) (t : Thr) (label : String) (case : Int) : S × Thr × Lis
 def isSender (n : String) : Bool := n.startsWith "S"
 
 def doStep (s : S) (tid label : String) (case : Int) (events : List String) : S :=
+  -- a connection-level write inside the library's buffered transport: a scheduling point, not a step of the channel
+  if label == "conn.write" then { s with stepNo := s.stepNo + 1 } else
   let t := getThr s tid
   let isWrite := label.endsWith "tr-writev" || label.endsWith "tr-write"
   let s := { s with stepNo := s.stepNo + 1, nWrites := if isWrite then s.nWrites + 1 else s.nWrites }
@@ -377,12 +380,32 @@ def specCheck (prop : String) (s : S) (endStatus : String) : Option String :=
     else none
   -- C18: cancellation is honoured while waiting for queue space
   let c9 := s.ctxParked.map (fun b => s!"a writer whose context is already cancelled is parked waiting for queue space ({b})")
-  c9.orElse fun _ =>
+  -- buffered transport: the connection must have received exactly the bytes handed to the transport, once and in
+  -- order: a prefix of them, and all of those written before the last flush
+  let c10 := match s.conn with
+    | none => none
+    | some w =>
+      let okWrites := evs.filter (fun (e : Ev) => (e.text.startsWith "tr:write") && (e.text.splitOn "!").length == 1)
+      let dataOf (e : Ev) : Bytes := match e.text.splitOn ":" with
+        | [_, _, p] => (parseBufs p).flatten
+        | _ => []
+      let all := (okWrites.map dataOf).flatten
+      let lastFlush := ((evs.filter (fun (e : Ev) => e.text == "tr:flush" && e.step < trCloseStep)).map (fun (e : Ev) => e.step)).foldl max 0
+      let flushed := ((okWrites.filter (fun (e : Ev) => e.step < lastFlush)).map dataOf).flatten
+      if w != all.take w.length then
+        some s!"the connection under the buffered transport received {hex w}, which is not a prefix of the bytes written to the transport {hex all} (bytes duplicated, lost or reordered between two goroutines inside the transport)"
+      else if w.length < flushed.length then
+        some s!"the connection received only {w.length} of the {flushed.length} bytes written before the last flush"
+      else none
+  c9.orElse fun _ => c10.orElse fun _ =>
   c1.orElse (fun _ => c2.orElse (fun _ => c3.orElse (fun _ => c4.orElse (fun _ => c5.orElse (fun _ => c6.orElse (fun _ => c6b.orElse (fun _ => c6c.orElse (fun _ => c6d.orElse (fun _ => c7.orElse (fun _ => c8))))))))))
 
 def handle (prop : String) (s : S) : List String → S × String
   | ["cfg", sync, cap, until_] =>
     ({ st := { sync := sync == "1", cap := cap.toNat?.getD 1, untilW := until_ == "1" }, ctxs := [false, false, false, false] }, "ok")
+  | ["cfg", sync, cap, until_, _buf] =>
+    ({ st := { sync := sync == "1", cap := cap.toNat?.getD 1, untilW := until_ == "1" }, ctxs := [false, false, false, false] }, "ok")
+  | ["conn", h] => ({ s with conn := some ((unhex h).getD []) }, "ok")
   | ["failwrite", k] => ({ s with failAt := k.toNat?.getD 0 }, "ok")
   | "thr" :: name :: ops => (setThr s { name := name, ops := ops, closeVia := "op" }, "ok")
   | "step" :: tid :: label :: case :: events =>
